@@ -187,4 +187,175 @@ theorem mutKind_run (k : MutKind W) (g : Genome W) (reg : Reg W) (rs : List Nat)
   | addNode o => exact mutateAddNodeP_run g reg o rs
   | connectSensors => exact mutateConnectSensorsP_run g reg rs
 
+/-! ### the species goroutine -/
+
+theorem paramStage_tail (o : EpochOpts W) (x : MRes W × Reg W) :
+    packM ((paramStage o x.1).run x.2) = (match packM x with
+      | .error e => .error e
+      | .ok ((g', reg', true), rs') => .ok ((g', reg', true), rs')
+      | .ok ((g', reg', false), rs') =>
+        match mutateAllNonstructural g' o.mopts rs' with
+        | .error e => .error e
+        | .ok (g'', rs'') => .ok ((g'', reg', false), rs'')) := by
+  rcases x with ⟨e | ⟨⟨g', b⟩, rs'⟩, reg'⟩
+  · rfl
+  cases b
+  · simp only [paramStage, packM]
+    rcases mutateAllNonstructural g' o.mopts rs' with e | ⟨g'', rs''⟩ <;> rfl
+  · rfl
+
+theorem mutateBabyP_run (o : EpochOpts W) (g : Genome W) (reg : Reg W) (rs : List Nat) :
+    packM ((mutateBabyP o g rs).run reg) = mutateBaby o g reg rs := by
+  unfold mutateBabyP mutateBaby structStageP
+  rcases Rand.float64 (W := W) rs with e | ⟨f1, rs1⟩
+  · rfl
+  simp only
+  by_cases h1 : lt f1 o.mutateAddNodeProb = true
+  · rw [if_pos h1, if_pos h1, run_bind, run_bind, ← mutateAddNodeP_run]
+    generalize (mutateAddNodeP g o.mopts rs1).run reg = x
+    rcases x with ⟨e | ⟨⟨g', b⟩, rs'⟩, reg'⟩ <;> rfl
+  · rw [if_neg h1, if_neg h1]
+    rcases Rand.float64 (W := W) rs1 with e | ⟨f2, rs2⟩
+    · rfl
+    simp only
+    by_cases h2 : lt f2 o.mutateAddLinkProb = true
+    · rw [if_pos h2, if_pos h2, run_bind, run_bind, ← mutateAddLinkP_run]
+      generalize (mutateAddLinkP g o.mopts rs2).run reg = x
+      rcases x with ⟨e | ⟨⟨g', b⟩, rs'⟩, reg'⟩ <;> rfl
+    · rw [if_neg h2, if_neg h2]
+      rcases Rand.float64 (W := W) rs2 with e | ⟨f3, rs3⟩
+      · rfl
+      simp only
+      by_cases h3 : lt f3 o.mutateConnectSensors = true
+      · rw [if_pos h3, if_pos h3, run_bind, ← mutateConnectSensorsP_run]
+        exact paramStage_tail o _
+      · rw [if_neg h3, if_neg h3]
+        simp only [Prog.bind, paramStage, packM]
+        rcases mutateAllNonstructural g o.mopts rs3 with e | ⟨g'', rs''⟩ <;> rfl
+
+def packS (x : SRes W × Reg W) : R (ReproState W) :=
+  match x.1 with
+  | .error e => .error e
+  | .ok (st', rs') => .ok ({ st' with reg := x.2 }, rs')
+
+theorem reproduceOneP_run (o : EpochOpts W) (generation : Int) (s : Species W) (sorted : List (Species W)) (champ : Org W)
+    (count : Int) (st : ReproState W) (r : Reg W) (rs : List Nat) :
+    packS ((reproduceOneP o generation s sorted champ count st rs).run r) =
+      reproduceOne o generation s sorted champ count { st with reg := r } rs := by
+  unfold reproduceOneP reproduceOne
+  simp only
+  by_cases hsc : st.superChamp > 0
+  · rw [if_pos hsc, if_pos hsc]
+    rcases champ.genome.duplicate count with e | g0
+    · rfl
+    simp only
+    rw [run_bind]
+    unfold superChampMutP
+    by_cases h1 : st.superChamp > 1
+    · rw [if_pos h1, if_pos h1]
+      rcases Rand.float64 (W := W) rs with e | ⟨f, rs1⟩
+      · rfl
+      simp only
+      by_cases h8 : (lt f (ofDec 8 1) || eq o.mutateAddLinkProb zero) = true
+      · rw [if_pos h8, if_pos h8]
+        rcases mutateLinkWeights g0 o.mopts.weightMutPower one .gaussian rs1 with e | ⟨g1, rs2⟩ <;> rfl
+      · rw [if_neg h8, if_neg h8, run_bind, ← mutateAddLinkP_run]
+        generalize (mutateAddLinkP g0 o.mopts rs1).run r = x
+        rcases x with ⟨e | ⟨⟨g', b⟩, rs'⟩, reg'⟩ <;> rfl
+    · rw [if_neg h1, if_neg h1]; rfl
+  · rw [if_neg hsc, if_neg hsc]
+    by_cases hcc : (!st.champCloneDone && decide (s.expectedOffspring > 5)) = true
+    · rw [if_pos hcc, if_pos hcc]
+      rcases champ.genome.duplicate count with e | g0 <;> rfl
+    · rw [if_neg hcc, if_neg hcc]
+      rcases Rand.float64 (W := W) rs with e | ⟨f, rs1⟩
+      · rfl
+      simp only
+      by_cases hmo : (lt f o.mutateOnlyProb || s.orgs.length == 1) = true
+      · rw [if_pos hmo, if_pos hmo]
+        rcases Rand.intn s.orgs.length rs1 with e | ⟨k, rs2⟩
+        · rfl
+        simp only
+        rcases s.orgs[k]? with _ | mom
+        · rfl
+        simp only
+        rcases mom.genome.duplicate count with e | g0
+        · rfl
+        simp only
+        rw [run_bind, ← mutateBabyP_run]
+        generalize (mutateBabyP o g0 rs2).run r = x
+        rcases x with ⟨e | ⟨⟨g', b⟩, rs'⟩, reg'⟩ <;> rfl
+      · rw [if_neg hmo, if_neg hmo]
+        rcases Rand.intn s.orgs.length rs1 with e | ⟨k, rs2⟩
+        · rfl
+        simp only
+        rcases s.orgs[k]? with _ | mom
+        · rfl
+        simp only
+        rcases Rand.float64 (W := W) rs2 with e | ⟨f2, rs3⟩
+        · rfl
+        simp only
+        generalize hx : (if gt f2 o.interspeciesMateRate = true then _ else _ : R (Org W)) = x
+        have hpd : pickDad o s sorted f2 rs3 = x := Eq.trans rfl hx
+        rw [hpd]
+        rcases x with e | ⟨dad, rs4⟩
+        · rfl
+        simp only
+        rcases Rand.float64 (W := W) rs4 with e | ⟨f3, rs5⟩
+        · rfl
+        simp only
+        generalize hy : (if lt f3 o.mateMultipointProb = true then _ else _ : R (Genome W)) = y
+        have hmc : mateChild o mom dad count f3 rs5 = y := Eq.trans rfl hy
+        rw [hmc]
+        rcases y with e | ⟨child, rs7⟩
+        · rfl
+        simp only
+        rcases Rand.float64 (W := W) rs7 with e | ⟨f5, rs8⟩
+        · rfl
+        simp only
+        split
+        · rw [run_bind, ← mutateBabyP_run]
+          generalize (mutateBabyP o child rs8).run r = x
+          rcases x with ⟨e | ⟨⟨g', b⟩, rs'⟩, reg'⟩ <;> rfl
+        · rfl
+
+theorem reproduceLoopP_run (o : EpochOpts W) (generation : Int) (s : Species W) (sorted : List (Species W)) (champ : Org W)
+    (n : Nat) : ∀ (count : Int) (st : ReproState W) (r : Reg W) (rs : List Nat),
+    packS ((reproduceLoopP o generation s sorted champ n count st rs).run r) =
+      reproduceLoop o generation s sorted champ n count { st with reg := r } rs := by
+  induction n with
+  | zero => intro count st r rs; rfl
+  | succ n ih =>
+    intro count st r rs
+    unfold reproduceLoopP reproduceLoop
+    rw [run_bind, ← reproduceOneP_run]
+    generalize (reproduceOneP o generation s sorted champ count st rs).run r = x
+    rcases x with ⟨e | ⟨st', rs'⟩, reg'⟩
+    · rfl
+    · exact ih (count + 1) st' reg' rs'
+
+/-- the sequential result type from a species goroutine's `run` -/
+def packB (x : BRes W × Reg W) : R (List (Org W) × Reg W × Nat) :=
+  match x.1 with
+  | .error e => .error e
+  | .ok ((babies, uid), rs') => .ok ((babies, x.2, uid), rs')
+
+/-- **a species goroutine run alone = `Species.reproduce` of the sequential model** -/
+theorem reproduceSpeciesP_run (o : EpochOpts W) (generation : Int) (s : Species W) (sorted : List (Species W)) (reg : Reg W)
+    (nextUid : Nat) (rs : List Nat) :
+    packB ((reproduceSpeciesP o generation s sorted reg nextUid rs).run reg) =
+      reproduceSpecies o generation s sorted reg nextUid rs := by
+  unfold reproduceSpeciesP reproduceSpecies
+  rcases s.orgs.head? with _ | champ
+  · simp only
+    split <;> rfl
+  simp only
+  rw [run_bind]
+  have := reproduceLoopP_run o generation s sorted champ s.expectedOffspring.toNat 0
+    { superChamp := champ.superChampOffspring, champCloneDone := false, reg := reg, nextUid := nextUid, babies := [] } reg rs
+  simp only at this
+  rw [← this]
+  generalize (reproduceLoopP o generation s sorted champ s.expectedOffspring.toNat 0 _ rs).run reg = x
+  rcases x with ⟨e | ⟨st', rs'⟩, reg'⟩ <;> rfl
+
 end GoNeat.C16
